@@ -257,6 +257,16 @@ type compatibilityQuery struct {
 	cancel    context.CancelFunc
 }
 
+// errOrCancelled reports a cancelled context as such. Once the context is done the
+// streams between operators are cut short, and whatever an operator makes of a
+// truncated input (e.g. "scalar argument not found") is not the error of the query.
+func errOrCancelled(ctx context.Context, err error) error {
+	if cerr := ctx.Err(); cerr != nil {
+		return cerr
+	}
+	return err
+}
+
 func (q *compatibilityQuery) Exec(ctx context.Context) (ret *promql.Result) {
 	// Handle case with strings early on as this does not need us to process samples.
 	// TODO(saswatamcode): Modify models.StepVector to support all types and check during executor creation.
@@ -273,7 +283,7 @@ func (q *compatibilityQuery) Exec(ctx context.Context) (ret *promql.Result) {
 
 	resultSeries, err := q.Query.exec.Series(ctx)
 	if err != nil {
-		return newErrResult(ret, err)
+		return newErrResult(ret, errOrCancelled(ctx, err))
 	}
 
 	series := make([]promql.Series, len(resultSeries))
@@ -289,7 +299,7 @@ loop:
 		default:
 			r, err := q.Query.exec.Next(ctx)
 			if err != nil {
-				return newErrResult(ret, err)
+				return newErrResult(ret, errOrCancelled(ctx, err))
 			}
 			if r == nil {
 				break loop
